@@ -72,6 +72,12 @@ pub fn packages(p: &Project) -> Vec<PkgInfo> {
             None => "Main".to_string(),
         };
         let _ = pkg;
+        // `Builtin` is the compiler's own package: an import of it names no project package, and a
+        // directory of that name is not part of the project (nothing can import it)
+        if dir_pkg == "Builtin" {
+            continue;
+        }
+        imports.retain(|i| i != "Builtin");
         let e = map.entry(dir_pkg.clone()).or_insert(PkgInfo { name: dir_pkg, files: vec![], imports: vec![] });
         e.files.push(path.clone());
         for i in imports {
@@ -438,6 +444,20 @@ pub fn artifact_fidelity_projects() -> Vec<Project> {
     }
     // the builtin package named in an import
     out.push(Project { name: "import-of-builtin".into(), files: vec![("main.gom".into(), "package Main\nimport Builtin\n\nfn main() { string_println(\"x\") }\n".into())], expected_stdout: None });
+    // a project directory that declares the package name of the compiler's builtins
+    out.push(Project {
+        name: "user-package-named-builtin-used".into(),
+        files: vec![("main.gom".into(), "package Main\nimport Builtin\n\nfn main() { string_println(Builtin::helper()) }\n".into()), ("Builtin/lib.gom".into(), "package Builtin\n\nfn helper() -> string { \"mine\" }\n".into())],
+        expected_stdout: None,
+    });
+    out.push(Project {
+        name: "user-package-named-builtin-shadowing".into(),
+        files: vec![
+            ("main.gom".into(), "package Main\nimport Builtin\n\ntrait Show { fn show(Self) -> string; }\nimpl Show for int32 { fn show(self: int32) -> string { \"Main\" } }\nfn main() { string_println(Show::show(1)) }\n".into()),
+            ("Builtin/lib.gom".into(), "package Builtin\n\ntrait Show { fn show(Self) -> string; }\nimpl Show for int32 { fn show(self: int32) -> string { \"user Builtin\" } }\nfn string_println(s: string) -> unit { () }\n".into()),
+        ],
+        expected_stdout: None,
+    });
     out.push(Project {
         name: "import-of-builtin-in-a-library".into(),
         files: vec![("main.gom".into(), "package Main\nimport Lib\n\nfn main() { string_println(Lib::s()) }\n".into()), ("Lib/lib.gom".into(), "package Lib\nimport Builtin\n\nfn s() -> string { \"x\" }\n".into())],
